@@ -348,6 +348,14 @@ def run_pit_case(ctx, case):
                                                      censor=censor, kind=kind),
                           [obs, ens], (pits, np.asarray(sudo)), case,
                           np.random.default_rng(digest(obs, ens) % 2 ** 32), n=1)
+        # single-precision copies of the same numbers (the lattice values are exact in
+        # float32): ensemble functions convert their data to double before comparing
+        # them with the threshold, so the answers are the same
+        ctx.presentations("pit", lambda o_, e_: call(m_.pit, o_, e_, random=False, cst=cst,
+                                                     censor=censor, kind=kind),
+                          [obs, ens], (pits, np.asarray(sudo)), case,
+                          np.random.default_rng(digest(obs, ens, 7) % 2 ** 32), n=1,
+                          kinds=["f32"])
 
 
 # --------------------------------------------------- uniformity statistics ----
